@@ -55,7 +55,8 @@ def compare(cfg, ops):
     """run one history on both servers; -> (runners, violation or None)"""
     pair = {}
     for kind in ('threaded', 'asyncio'):
-        r, _ = hsuite.evaluate(kind, cfg, ops, [], [], seed=0)
+        r, _ = hsuite.evaluate(kind, cfg, ops, [], ['drain'], seed=0)      # every live polling client reads until its queue is empty: *when* a message
+        # is delivered depends on the order of simultaneous timers (not compared), *that* it is delivered does not
         pair[kind] = r
     upto = min(first_silence(pair['threaded']), first_silence(pair['asyncio']))
     a, b = obs(pair['threaded'], upto), obs(pair['asyncio'], upto)
@@ -104,7 +105,7 @@ def run(ctx):
     shrunk = set()
     for h in range(ctx.n(PROFILE['quick'], PROFILE['thorough'])):
         cfg = hsuite.gen_cfg(rng, PROFILE)
-        ops = hist.gen_history(rng, cfg, rng.choice(PROFILE['lengths']), PROFILE['weights'])
+        ops = [o for o in hist.gen_history(rng, cfg, rng.choice(PROFILE['lengths']), PROFILE['weights']) if o[0] != 'cancelpoll']     # cancelling a long poll is a stimulus of the asyncio server only (threads cannot be cancelled): not part of the equivalence
         try:
             pair, v, upto = compare(cfg, ops)
         except Exception as e:
